@@ -12,7 +12,7 @@ from ..runs_common import InjectedFault
 
 ID = "C11"
 LEVEL = "fault_enumeration"
-BUDGET = {"quick": 48, "thorough": 400}
+BUDGET = {"quick": 48, "thorough": 700}
 SHARDS = {"quick": 8, "thorough": 16}
 SHRINK = {"quick": False, "thorough": False}
 RULE = (
